@@ -35,8 +35,8 @@ def run(tier):
         pts = list(r.res.values())
         # longer run-length cases (counts with two digits, runs of digits and of tildes) over a 3-letter alphabet
         cfg2 = os.path.join(d, 'codec2.cfg')
-        open(cfg2, 'w').write('CONSTANT Alphabet = {"~", "a", "1"}\n'
-                              f'CONSTANT MaxLen = {7 if tier == "quick" else 9}\nINIT Init\nNEXT Next\nINVARIANT RleLaw\nCHECK_DEADLOCK FALSE\n')
+        open(cfg2, 'w').write('CONSTANT Alphabet = {"~", "a", "1", "n"}\n'
+                              f'CONSTANT MaxLen = {6 if tier == "quick" else 8}\nINIT Init\nNEXT Next\nINVARIANT RleLaw\nCHECK_DEADLOCK FALSE\n')
         r2 = tlc.run_tlc('PacketCodec', cfg=cfg2, timeout=2400)
         ck.add_tlc(r2, 'PacketCodec(rle alphabet)')
         if r2.violated:
